@@ -97,6 +97,11 @@ impl<CS: CLCiphersuite> Signature<CL03<CS>> {
     pub fn verify(&self, pk: &CL03PublicKey, a_bases: &Bases, message: &CL03Message) -> bool {
         let sign = self.cl03Signature();
 
+        // attributes live in [0, 2^lm): without this check (v * a^k, m + k*e) also verifies
+        if message.value < 0 || message.value.significant_bits() > CS::lm {
+            return false;
+        }
+
         let lhs = Integer::from(sign.v.pow_mod_ref(&sign.e, &pk.N).unwrap());
 
         let rhs = (Integer::from(a_bases.0[0].pow_mod_ref(&message.value, &pk.N).unwrap())
@@ -123,6 +128,14 @@ impl<CS: CLCiphersuite> Signature<CL03<CS>> {
     ) -> bool {
         if messages.len() > a_bases.0.len() {
             panic!("Not enought a_bases!");
+        }
+
+        // attributes live in [0, 2^lm): without this check (v * a_i^k, m_i + k*e) also verifies
+        if messages
+            .iter()
+            .any(|m| m.value < 0 || m.value.significant_bits() > CS::lm)
+        {
+            return false;
         }
 
         let sign = self.cl03Signature();
